@@ -1337,6 +1337,10 @@ class Executor:
             raise OutOfSubset("nested comprehension", e)
         g = e.generators[0]
         it = self.eval(g.iter, env)
+        if isinstance(it, RangeV) and not all(isinstance(x, int) for x in (it.lo, it.hi)) and it.step == 1 and not g.ifs and isinstance(g.target, ast.Name):
+            seq = self.range_comprehension(e, g, it, env)
+            if seq is not None:
+                return seq
         if isinstance(it, RangeV) and not all(isinstance(x, int) for x in (it.lo, it.hi)) and it.step == 1 and not g.ifs:
             # comprehension over a symbolic range: length is exact, the elements are left unconstrained (sound
             # over-approximation for pure element expressions; exceptions inside the element expression are not modelled)
@@ -1357,6 +1361,64 @@ class Executor:
         return Seq("list", out)
 
     e_GeneratorExp = e_ListComp
+
+    def range_comprehension(self, e, g, it, env):
+        """[elt(i) for i in range(lo, hi)] with symbolic bounds and a numeric element expression that may call functions under contract: the element is
+        evaluated once for an ARBITRARY index k of the range; every symbol created during that evaluation (callee results) is generalised to a function of
+        k (an array indexed by k), the facts learnt (callee postconditions) are asserted for all k of the range, and the result is the sequence defined
+        pointwise by the generalised element.  Obligations raised while evaluating (callee preconditions) are proved for the arbitrary k.  Returns None
+        (caller falls back to exact length / unconstrained elements) if the element is not numeric or the evaluation splits the path."""
+        lo, hi = V.to_z3(it.lo), V.to_z3(it.hi)
+        k = z3.Int("c!%d!%d!%d" % (e.lineno, len(self.trace), len(self.obligations)))
+        names0 = set(self.used_names)
+        n_pc, n_trace = len(self.pc), len(self.trace)
+        self.pc.append(z3.And(lo <= k, k < hi))
+        self.pc_tags.append("path")
+        sub = dict(env)
+        sub[g.target.id] = k
+        saved = getattr(self, "pure_mode", False)
+        self.pure_mode = True
+        body = None
+        try:
+            try:
+                body = self.eval(e.elt, sub)
+            except OutOfSubset:
+                body = None
+        finally:
+            self.pure_mode = saved
+            facts = list(self.pc[n_pc + 1:])
+            del self.pc[n_pc:]
+            del self.pc_tags[n_pc:]
+        if body is None or len(self.trace) != n_trace or not V.is_num(body) or isinstance(body, bool):
+            return None
+        body = V.to_z3(V.bool_to_int(body))
+        new_names = set(self.used_names) - names0
+
+        def consts_of(t, acc):
+            todo, seen = [t], set()
+            while todo:
+                x = todo.pop()
+                if x.get_id() in seen:
+                    continue
+                seen.add(x.get_id())
+                if z3.is_app(x):
+                    if x.num_args() == 0 and x.decl().kind() == z3.Z3_OP_UNINTERPRETED and x.decl().name() in new_names:
+                        acc[x.decl().name()] = x
+                    todo.extend(x.children())
+                elif z3.is_quantifier(x):
+                    todo.append(x.body())
+        acc = {}
+        for t in [body] + facts:
+            consts_of(t, acc)
+        subs = [(c, z3.Select(z3.Array(nm + "!of", z3.IntSort(), c.sort()), k)) for nm, c in acc.items()]
+        body_g = z3.substitute(body, *subs) if subs else body
+        facts_g = [z3.substitute(f, *subs) if subs else f for f in facts]
+        n = z3.simplify(z3.If(hi - lo >= 0, hi - lo, z3.IntVal(0)))
+        comp = self.S.array("comp", z3.IntSort(), body_g.sort())
+        rng = z3.And(lo <= k, k < hi)
+        self.assume(z3.ForAll([k], z3.Implies(rng, z3.And(z3.Select(comp, k - lo) == body_g, *facts_g)), patterns=[z3.Select(comp, k - lo)]), "comprehension@L%d" % e.lineno)
+        self.assumed.append("comprehension at L%d over a symbolic range: element evaluated for an arbitrary index, callee results generalised to functions of the index" % e.lineno)
+        return Seq("list", None, n, comp)
 
     def symbolic_comprehension(self, e, g, it, env):
         """[elt for x in A] / [elt for x, y in zip(A, B)] over sequences of symbolic length, without filter: the result is the sequence
